@@ -46,24 +46,28 @@ static void win_begin(int bt) { memset(livetab, 0, sizeof(struct live) * LIVECAP
 static void win_end(void) { win_open = 0; }
 static long win_residue(char *desc, size_t dn, char *topfn, size_t tn)
 {
-    long r = 0; size_t o = 0;
+    /* the leaked block with the lowest allocation ordinal names the finding (hash-table order depends on addresses) */
+    long r = 0; size_t o = 0; struct live *first = NULL;
     if (dn) desc[0] = 0;
     if (tn) topfn[0] = 0;
     for (size_t i = 0; i < LIVECAP; i++) {
         if (livetab[i].p && livetab[i].p != (void *) -1) {
             r++;
-            if (o + 60 < dn) o += (size_t) snprintf(desc + o, dn - o, "[%zu bytes, allocation #%ld]", livetab[i].n, livetab[i].ord);
-            if (tn && !topfn[0] && livetab[i].nbt && __sanitizer_symbolize_pc) {
-                for (int f = 0; f < livetab[i].nbt; f++) {
-                    char b[400]; b[0] = 0;
-                    __sanitizer_symbolize_pc(livetab[i].bt[f], "%f|%s", b, sizeof b);
-                    char *bar = strchr(b, '|');
-                    if (!bar) continue;
-                    if (strstr(bar, "/src/") && !strstr(bar, "/src/mem.c") && !strstr(bar, "libsanitizer") && !strstr(bar, "/harness/")) {
-                        *bar = 0; snprintf(topfn, tn, "%s", b);
-                        if (o + 200 < dn) o += (size_t) snprintf(desc + o, dn - o, " allocated in %s (%s)", b, bar + 1);
-                        break;
-                    }
+            if (!first || livetab[i].ord < first->ord) first = &livetab[i];
+        }
+    }
+    if (first) {
+        if (dn) o += (size_t) snprintf(desc + o, dn - o, "first of %ld: [%zu bytes, allocation #%ld]", r, first->n, first->ord);
+        if (tn && first->nbt && __sanitizer_symbolize_pc) {
+            for (int f = 0; f < first->nbt; f++) {
+                char b[400]; b[0] = 0;
+                __sanitizer_symbolize_pc(first->bt[f], "%f|%s", b, sizeof b);
+                char *bar = strchr(b, '|');
+                if (!bar) continue;
+                if (strstr(bar, "/src/") && !strstr(bar, "/src/mem.c") && !strstr(bar, "libsanitizer") && !strstr(bar, "/harness/")) {
+                    *bar = 0; snprintf(topfn, tn, "%s", b);
+                    if (o + 200 < dn) o += (size_t) snprintf(desc + o, dn - o, " allocated in %s (%s)", b, bar + 1);
+                    break;
                 }
             }
         }
@@ -101,8 +105,8 @@ static void destroy(int i)
     disown(i);
 }
 
-static const char *W[] = { "alpha", "beta", "gamma", "delta", "a b 'c d' e", "x", "", "http://u:p@h:1/p?q", "k1", "k2", "k3", "longer text with several words in it" };
-#define NW 12
+static const char *W[] = { "alpha", "beta", "gamma", "delta", "a b 'c d' e", "x", "", "http://u:p@h:1/p?q", "k1", "k2", "k3", "longer text with several words in it", "http://:8080/index.html", "//h?q", "proto:p" };
+#define NW 15
 static const char *word(void) { return W[vh_below(NW)]; }
 static const char *label(void) { static const char *L[] = { "k1", "k2", "k3", "k4", "k5", "k6" }; return L[vh_below(6)]; }
 static spif_obj_t new_label(void) { return (spif_obj_t) spif_str_new_from_ptr((spif_charptr_t) label()); }
@@ -118,7 +122,7 @@ static const char *IMPLN[] = { "array", "linked_list", "dlinked_list" };
 /* one program step */
 static void step(void)
 {
-    int op = (int) vh_below(43);
+    int op = (int) vh_below(48);
     int i, j;
     switch (op) {
     case 0: case 1: { const char *w = word(); vh_op("str_new_from_ptr(%s)", vh_qs(w)); own(spif_str_new_from_ptr((spif_charptr_t) w), T_STR, 0); vh_count("create", 1); break; }
@@ -244,6 +248,20 @@ static void step(void)
     case 40: { const char *w = word(); vh_op("spiftool_split(NULL, %s)", vh_qs(w)); char *in = vh_heapstr(w); own(spiftool_split(NULL, (spif_charptr_t) in), T_STRV, 0); free(in); vh_count("handed_out", 1); vh_count("split_arrays", 1); break; }
     case 41: if ((i = pick_kind(T_STRV)) >= 0) { vh_op("spiftool_join(\",\", #%d)", i); own(spiftool_join((spif_charptr_t) ",", (spif_charptr_t *) pool[i].p), T_RAW, 0); vh_count("handed_out", 1); } break;
     case 42: if ((i = pick_kind(T_TOK)) >= 0) { spif_list_t tl = spif_tok_get_tokens(pool[i].p); if (tl && SPIF_LIST_COUNT(tl) > 0) { vh_op("tok(#%d) tokens to_array", i); own(SPIF_LIST_TO_ARRAY(tl), T_RAW, 0); vh_count("handed_out", 1); } } break;
+
+    /* ---- emptied-but-allocated values, refused constructions, empty components */
+    case 43: if ((i = pick_kind(T_MBUFF)) >= 0) { long n = (long) spif_mbuff_get_len(pool[i].p); vh_op("mbuff_splice_from_ptr(#%d,0,%ld,NULL,0) -- emptied, buffer kept; then dup", i, n);
+                 spif_mbuff_splice_from_ptr(pool[i].p, 0, (spif_memidx_t) n, (spif_byteptr_t) NULL, 0); own(spif_mbuff_dup(pool[i].p), T_MBUFF, 0); vh_count("emptied_then_copied", 1); } break;
+    case 44: if ((i = pick_kind(T_STR)) >= 0) { long n = (long) spif_str_get_len(pool[i].p); vh_op("str_splice_from_ptr(#%d,0,%ld,NULL) -- emptied, buffer kept; then dup", i, n);
+                 spif_str_splice_from_ptr(pool[i].p, 0, (spif_stridx_t) n, (spif_charptr_t) NULL); own(spif_str_dup(pool[i].p), T_STR, 0); vh_count("emptied_then_copied", 1); } break;
+    case 45: { spif_obj_t k = new_label(); int f = (int) vh_below(2);
+               if (f == 0) { vh_op("objpair_new_from_both(key, NULL) -- must be refused without keeping anything"); spif_objpair_t p = spif_objpair_new_from_both(k, (spif_obj_t) NULL); if (p) own(p, T_PAIR, 0); }
+               else if (f == 1) { vh_op("objpair_new_from_both(NULL, value) -- must be refused without keeping anything"); spif_objpair_t p = spif_objpair_new_from_both((spif_obj_t) NULL, k); if (p) own(p, T_PAIR, 0); }
+               /* map_set(key, NULL) is not generated: a NULL value is outside every statement (Appendix A.3) */
+               SPIF_OBJ_DEL(k); vh_count("refused_constructions", 1); break; }
+    case 46: if ((i = pick_kind(T_URL)) >= 0) { vh_op("url_set_host(#%d, \"\")+set_port+unparse -- empty host", i); spif_url_set_host(pool[i].p, spif_str_new_from_ptr((spif_charptr_t) ""));
+                 spif_url_set_port(pool[i].p, spif_str_new_from_ptr((spif_charptr_t) "81")); spif_url_unparse(pool[i].p); vh_count("fill", 1); vh_count("url_empty_component", 1); } break;
+    case 47: { vh_op("mbuff_new_from_buff(NULL,0,16) -- capacity only; dup"); spif_mbuff_t m = spif_mbuff_new_from_buff((spif_byteptr_t) NULL, 0, 16); if (m) { own(m, T_MBUFF, 0); own(spif_mbuff_dup(m), T_MBUFF, 0); } vh_count("emptied_then_copied", 1); break; }
 
     /* ---- emptying and early deletion */
     case 37: if ((i = pick_kind2(T_LIST, T_MAP)) >= 0 || (i = pick_kind(T_VEC)) >= 0) { vh_op("%s done(#%d) on a possibly non-empty container, then reuse", TN[pool[i].kind], i);
